@@ -13,6 +13,10 @@
 //!     emit one event at the peer; output = which pending futures completed and how), `C close side how`
 //!     (output = how every still-pending future completed, and which did not within the watchdog).
 //!
+//! `E` endpoint cases: `E ep zero|drained|live` (a server endpoint with no connection ever / one that is already
+//!     drained / a live one), `E pend` (a task in `wait_incoming()`), `E act connect` (a connection attempt: exactly
+//!     one waiter gets it), `E close` (`Endpoint::close`: every waiter must yield `None`), `E shutdown`.
+//!
 //! Monitors (implementation only): `C16:stream-mismatch`, `C16:read-contract`, `C16:eos`,
 //! `C16:dgram-corrupt`, `C16:dgram-dup`, `C16:stranded-future` (with `kind=…`),
 //! `F160:accepted-0rtt-waker-overwritten`, `F161:closed-cancel-kills-worker`, `F162:closed-twice-panic`.
@@ -1420,6 +1424,242 @@ async fn run_close_case(lines: &[String], ex: &mut Exec) -> Vec<String> {
     out
 }
 
+// ------------------------------------------------------------------------------------------- E cases
+
+/// endpoint-level cases: `wait_incoming()` futures pending on an endpoint with no / a drained / a live connection,
+/// a connection attempt, `Endpoint::close`, `Endpoint::shutdown`
+async fn run_endpoint_case(lines: &[String], ex: &mut Exec) -> Vec<String> {
+    let n = lines.len();
+    let mut out: Vec<String> = vec!["skipped".into(); n];
+    let words: Vec<Vec<&str>> = lines.iter().map(|l| l.split_whitespace().collect()).collect();
+    if words[0].get(1) != Some(&"ep") {
+        return vec!["bad-op".into(); n];
+    }
+    let kind = words[0].get(2).copied().unwrap_or("zero");
+    let notify = Rc::new(Notify::default());
+    let grave: Graveyard = Rc::new(RefCell::new(vec![]));
+    let mut others: Vec<Endpoint> = vec![];
+    let mut held: Vec<Connection> = vec![];
+    let server: Endpoint = match kind {
+        "zero" => {
+            let (sc, _) = configs(TransportConfig::default(), TransportConfig::default());
+            match Endpoint::server("127.0.0.1:0", sc).await {
+                Ok(e) => e,
+                Err(e) => {
+                    out[0] = format!("error:{e}");
+                    return out;
+                }
+            }
+        }
+        "live" | "drained" => match establish(TransportConfig::default(), TransportConfig::default()).await {
+            Ok(Pair { eps, conns }) => {
+                let [ce, se] = eps;
+                let [cc, sc] = conns;
+                if kind == "live" {
+                    held.push(cc);
+                    held.push(sc);
+                    others.push(ce);
+                } else {
+                    cc.close(0u32.into(), b"done");
+                    sc.close(0u32.into(), b"done");
+                    drop(cc);
+                    drop(sc);
+                    // the client endpoint is gone for good, the server's connection drains
+                    let _ = timeout(Duration::from_secs(5), ce.shutdown()).await;
+                    let t0 = std::time::Instant::now();
+                    while se.open_connections() != 0 && t0.elapsed() < Duration::from_secs(5) {
+                        sleep(Duration::from_millis(5)).await;
+                    }
+                    if se.open_connections() != 0 {
+                        out[0] = "error:connection did not drain".into();
+                        return out;
+                    }
+                    // let the worker finish the iteration that removed the connection
+                    sleep(Duration::from_millis(5)).await;
+                }
+                se
+            }
+            Err(e) => {
+                out[0] = format!("error:{e}");
+                return out;
+            }
+        },
+        _ => return vec!["bad-op".into(); n],
+    };
+    out[0] = "ok".into();
+    ex.tag(format!("E:endpoint:{kind}"));
+    let addr = server.local_addr().unwrap();
+    let mut server = Some(server);
+    struct EPend {
+        line: usize,
+        result: Rc<RefCell<Option<String>>>,
+        handle: Option<JoinHandle<()>>,
+        reported: bool,
+    }
+    let mut pends: Vec<EPend> = vec![];
+    let mut fails: Vec<(String, String)> = vec![];
+    for i in 1..n {
+        let w = &words[i];
+        match w.get(1).copied() {
+            Some("pend") => {
+                let Some(ep) = server.clone() else {
+                    out[i] = "bad-op".into();
+                    continue;
+                };
+                let seen = Rc::new(Cell::new(false));
+                let result: Rc<RefCell<Option<String>>> = Rc::new(RefCell::new(None));
+                let (seen2, result2, notify2, grave2) = (seen.clone(), result.clone(), notify.clone(), grave.clone());
+                let handle = compio_runtime::spawn(async move {
+                    let res = match probe(ep.wait_incoming(), &seen2, &notify2).await {
+                        None => "ok:none".to_string(),
+                        Some(inc) => {
+                            // accept it (a refused / ignored attempt is recreated by the client's next datagram,
+                            // which would hand a second `Incoming` to another waiter at a timing-dependent moment)
+                            if let Ok(c) = inc.accept() {
+                                grave2.borrow_mut().push(Box::new(c));
+                            }
+                            "ok:incoming".to_string()
+                        }
+                    };
+                    drop(ep);
+                    *result2.borrow_mut() = Some(res);
+                    notify2.notify();
+                });
+                let (s2, r2) = (seen.clone(), result.clone());
+                let ok = notify.wait_until(|| s2.get() || r2.borrow().is_some(), Duration::from_millis(700)).await;
+                let mut p = EPend { line: i, result, handle: Some(handle), reported: false };
+                if p.result.borrow().is_some() && !seen.get() {
+                    out[i] = format!("ready:{}", p.result.borrow().clone().unwrap());
+                    p.reported = true;
+                } else if ok {
+                    out[i] = "pending".into();
+                } else {
+                    out[i] = "not-polled".into();
+                }
+                pends.push(p);
+            }
+            Some("act") => {
+                if w.get(2) != Some(&"connect") {
+                    out[i] = "bad-op".into();
+                    continue;
+                }
+                let (_, cc) = configs(TransportConfig::default(), TransportConfig::default());
+                let client = match Endpoint::client("127.0.0.1:0").await {
+                    Ok(c) => c,
+                    Err(e) => {
+                        out[i] = format!("error:{e}");
+                        continue;
+                    }
+                };
+                match client.connect(addr, "localhost", Some(cc)) {
+                    Ok(connecting) => grave.borrow_mut().push(Box::new(connecting)),
+                    Err(e) => {
+                        out[i] = format!("error:{e}");
+                        continue;
+                    }
+                }
+                others.push(client);
+                let waiting = pends.iter().any(|p| !p.reported && p.result.borrow().is_none());
+                if waiting {
+                    let pr = &pends;
+                    let ok = notify
+                        .wait_until(|| pr.iter().any(|p| !p.reported && p.result.borrow().is_some()), ACT_WATCHDOG)
+                        .await;
+                    if !ok {
+                        fails.push((
+                            "C16:stranded-future".into(),
+                            format!("kind=wait_incoming endpoint={kind} after=act:connect: no waiter completed within {} ms", ACT_WATCHDOG.as_millis()),
+                        ));
+                    }
+                } else {
+                    // nobody waits: give the packet time to be queued
+                    sleep(Duration::from_millis(20)).await;
+                }
+                sleep(Duration::from_millis(3)).await;
+                let mut done = vec![];
+                for p in pends.iter_mut() {
+                    if !p.reported && p.result.borrow().is_some() {
+                        p.reported = true;
+                        done.push(format!("*:{}", p.result.borrow().clone().unwrap()));
+                    }
+                }
+                out[i] = format!("done=[{}]", done.join(","));
+            }
+            Some("close") => {
+                let Some(ep) = &server else {
+                    out[i] = "bad-op".into();
+                    continue;
+                };
+                ep.close(3u32.into(), b"bye");
+                {
+                    let pr = &pends;
+                    notify.wait_until(|| pr.iter().all(|p| p.result.borrow().is_some()), CLOSE_WATCHDOG).await;
+                }
+                sleep(Duration::from_millis(3)).await;
+                let mut closed = vec![];
+                let mut stranded = vec![];
+                for p in pends.iter_mut() {
+                    if p.reported {
+                        continue;
+                    }
+                    match p.result.borrow().clone() {
+                        Some(r) => {
+                            closed.push(format!("{}:{r}", p.line));
+                            p.reported = true;
+                        }
+                        None => {
+                            stranded.push(p.line.to_string());
+                            fails.push((
+                                "C16:stranded-future".into(),
+                                format!(
+                                    "kind=wait_incoming endpoint={kind} after=close:endpoint: still pending {} ms after Endpoint::close",
+                                    CLOSE_WATCHDOG.as_millis()
+                                ),
+                            ));
+                        }
+                    }
+                }
+                out[i] = format!("closed=[{}] stranded=[{}]", closed.join(","), stranded.join(","));
+            }
+            Some("shutdown") => {
+                let Some(ep) = server.take() else {
+                    out[i] = "bad-op".into();
+                    continue;
+                };
+                // `shutdown` waits for every clone of the endpoint and every connection to be dropped
+                held.clear();
+                grave.borrow_mut().clear();
+                match timeout(Duration::from_millis(3000), ep.shutdown()).await {
+                    Ok(_) => out[i] = "ok".into(),
+                    Err(_) => {
+                        out[i] = "timeout".into();
+                        if !pends.iter().any(|p| p.result.borrow().is_none()) {
+                            fails.push((
+                                "C16:stranded-future".into(),
+                                format!("kind=shutdown endpoint={kind}: Endpoint::shutdown still pending after 3000 ms"),
+                            ));
+                        }
+                    }
+                }
+            }
+            _ => out[i] = "bad-op".into(),
+        }
+    }
+    for p in pends.iter_mut() {
+        p.handle.take();
+    }
+    held.clear();
+    grave.borrow_mut().clear();
+    if let Some(ep) = server.take() {
+        others.push(ep);
+    }
+    retire(others);
+    for (sig, d) in fails {
+        ex.fail(sig, d);
+    }
+    out
+}
+
 // ------------------------------------------------------------------------------------------- generator
 
 fn gen_stream_params(rng: &mut Rng, big: bool) -> (usize, String, String, usize) {
@@ -1767,6 +2007,24 @@ fn gen_close(rng: &mut Rng, idx: usize) -> Case {
     Case { name: format!("c{idx}"), lines }
 }
 
+fn gen_endpoint(rng: &mut Rng, idx: usize, kind: &str) -> Case {
+    let mut lines = vec![format!("E ep {kind}")];
+    for _ in 0..rng.range(1, 3) {
+        lines.push("E pend".into());
+    }
+    if rng.chance(1, 3) {
+        lines.push("E act connect".into());
+        for _ in 0..rng.below(3) {
+            lines.push("E pend".into());
+        }
+    }
+    lines.push("E close".into());
+    if rng.chance(1, 2) {
+        lines.push("E shutdown".into());
+    }
+    Case { name: format!("e{idx}-{kind}"), lines }
+}
+
 fn dedicated() -> Vec<Case> {
     let c = |name: &str, lines: &[&str]| Case { name: name.into(), lines: lines.iter().map(|s| s.to_string()).collect() };
     vec![
@@ -1803,6 +2061,11 @@ fn dedicated() -> Vec<Case> {
             "f162-closed-twice",
             &["C conn cbi=4 cuni=4 sbi=4 suni=4", "C pend c closed", "C pend c closed", "C close s conn"],
         ),
+        // `Endpoint::close` must itself release the `wait_incoming()` waiters: an endpoint without a live connection
+        // gets no datagram and no endpoint event afterwards, so its worker loop never iterates again
+        c("ep-zero-connections", &["E ep zero", "E pend", "E pend", "E pend", "E close", "E shutdown"]),
+        c("ep-drained-connection", &["E ep drained", "E pend", "E pend", "E close", "E shutdown"]),
+        c("ep-live-connection", &["E ep live", "E pend", "E act connect", "E pend", "E pend", "E close", "E shutdown"]),
         // blocked datagram senders at a synchronous close
         c("dgram-senders-at-close", &["C conn cbi=0 cuni=0 sbi=0 suni=0 dgsb=100", "C syncclose c 3"]),
         c("dgram-sender-at-close-server", &["C conn cbi=0 cuni=0 sbi=0 suni=0 dgsb=100", "C syncclose s 1"]),
@@ -1827,6 +2090,11 @@ fn generate(tier: &str, rng: &mut Rng) -> Vec<Case> {
     let thorough = tier == "thorough";
     let (nt, nc) = if thorough { (2000, 4000) } else { (160, 400) };
     let mut cases = dedicated();
+    let (ne, nd) = if thorough { (400, 60) } else { (40, 3) };
+    for i in 0..ne {
+        let kind = if i < nd { "drained" } else if i % 4 == 3 { "live" } else { "zero" };
+        cases.push(gen_endpoint(&mut rng.fork(), i, kind));
+    }
     for i in 0..nt.max(nc) {
         if i < nt {
             cases.push(gen_transfer(&mut rng.fork(), i, thorough));
@@ -1862,6 +2130,9 @@ fn main() {
             } else if first.starts_with("C ") {
                 ex.tag("family:close");
                 rt.block_on(run_close_case(&case.lines, &mut ex))
+            } else if first.starts_with("E ") {
+                ex.tag("family:endpoint");
+                rt.block_on(run_endpoint_case(&case.lines, &mut ex))
             } else {
                 vec!["bad-op".into(); case.lines.len()]
             };
